@@ -24,6 +24,7 @@ fn ops() -> Vec<Op> {
         mk("elide(subject)", Box::new(|e| Some(e.elide_removing_target(&e.subject())))),
         mk("encrypt_subject", Box::new(|e| e.encrypt_subject_opt(&bind::key0(), Some(bind::nonce0())).ok())),
         mk("decrypt_subject", Box::new(|e| e.decrypt_subject(&bind::key0()).ok())),
+        mk("Compress.removing(inner-of-first-decorated-assertion)", Box::new(|e| { let a = e.assertions(); let d = a.iter().find(|x| x.is_node())?; Some(e.elide_removing_set_with_action(&bind::dset(&[bind::dg(&d.subject())]), &ObscureAction::Compress)) })),
         mk("Compress.removing(first-assertion)", Box::new(|e| { let a = e.assertions(); a.first().map(|x| e.elide_removing_set_with_action(&bind::dset(&[bind::dg(x)]), &ObscureAction::Compress)) })),
     ]
 }
@@ -48,6 +49,8 @@ pub fn run(ctx: &Ctx) -> i32 {
     roots.push(("empty-string".into(), Envelope::new("")));
     roots.push(("incompressible-64".into(), Envelope::new(CBOR::to_byte_string((0..64u32).map(|i| (i.wrapping_mul(2654435761) >> 13) as u8).collect::<Vec<u8>>()))));
     roots.push(("already-compressed".into(), Envelope::new("zzzzzzzzzzzzzzzzzzzzzzzzzzzzzzzzzzzzzzzz").compress().unwrap()));
+    { let dec = Envelope::new_assertion("knows", "Bob").add_salt_instance(crate::explore::fixed_salt()); let ann = Envelope::new_assertion("email", "a@b").add_assertion("verified", true);
+      roots.push(("decorated-assertions".into(), Envelope::new("Alice").add_assertion_envelope(dec).unwrap().add_assertion_envelope(ann).unwrap().add_assertion("age", 30))); }
     roots.push(("already-compressed-subject".into(), Envelope::new("s").add_assertion("p", "o").compress_subject().unwrap()));
     let on_state = |e: &Envelope, desc: &dyn Fn() -> String, acc: &mut Acc| {
         let d0 = bind::dg(e); let o0 = bind::observe(e);
